@@ -143,6 +143,7 @@ type Decls struct {
 	defines  map[string]string // axiom line -> define-fun (quantifier-free mode)
 	declSkip map[string]bool
 	opaqueAxiom map[string]string // axiom line -> opaque spec function name
+	recPending  []string
 }
 
 func newDecls() *Decls { return &Decls{seen: map[string]bool{}, counter: map[string]int{}} }
